@@ -227,12 +227,40 @@ class Adapter:
         return dom
 
     # ------------------------------------------------------------------ build
-    def build(self, name, vals, plain=False):
-        """plain: enumeration-typed fields are given as plain integers wherever the constructor declares it accepts them"""
+    _CLS = {"CSBK": ("okdmr.dmrlib.etsi.layer2.pdu.csbk", "CSBK"), "DataHeader": ("okdmr.dmrlib.etsi.layer2.pdu.data_header", "DataHeader"),
+            "FullLC96": ("okdmr.dmrlib.etsi.layer2.pdu.full_link_control", "FullLinkControl"),
+            "FullLC77": ("okdmr.dmrlib.etsi.layer2.pdu.full_link_control", "FullLinkControl"),
+            "ShortLC": ("okdmr.dmrlib.etsi.layer2.pdu.short_link_control", "ShortLinkControl"),
+            "UDP": ("okdmr.dmrlib.etsi.layer3.pdu.udp_ipv4_compressed_header", "UDPIPv4CompressedHeader")}
+
+    def optional_fields(self, name, vals):
+        """fields of the case that map one-to-one onto a constructor parameter which has a default: a caller may leave them out"""
+        import importlib
+        import inspect
+        fam = name.split("/")[0]
+        if fam not in self._CLS:
+            return []
+        C = getattr(importlib.import_module(self._CLS[fam][0]), self._CLS[fam][1])
+        params = inspect.signature(C.__init__).parameters
+        out = []
+        for f in vals:
+            ent = self.T.get(fam, {}).get(f)
+            # a default of None marks a field that other opcodes / formats of the same class do not have (it is required for the
+            # ones that do); a default VALUE (0, False, b"", an empty bitarray) is a field the caller may really leave out. The UDP
+            # header is left alone: leaving out an extended header selects another layout.
+            if fam != "UDP" and ent is not None and ent[0] in params and params[ent[0]].default is not inspect.Parameter.empty \
+                    and params[ent[0]].default is not None:
+                out.append(f)
+        return out
+
+    def build(self, name, vals, plain=False, omit=()):
+        """plain: enumeration-typed fields are given as plain integers wherever the constructor declares it accepts them;
+        omit: fields (from optional_fields) whose constructor argument is not passed at all"""
         fam, sub = name.split("/")
         M = self.M
         kw = {}
         C0 = None
+        vals = {f: v for f, v in vals.items() if f not in omit}
         if plain:
             import importlib
             C0 = {"CSBK": ("okdmr.dmrlib.etsi.layer2.pdu.csbk", "CSBK"), "DataHeader": ("okdmr.dmrlib.etsi.layer2.pdu.data_header", "DataHeader"),
